@@ -12,6 +12,7 @@ LIST = [
     ("prim_le", os.path.join(CORPUS, "prim_le.xml"), None, "quick"),
     ("prim_be", os.path.join(CORPUS, "prim_be.xml"), None, "quick"),
     ("hdr_counts", os.path.join(CORPUS, "hdr_counts.xml"), None, "quick"),
+    ("nest3", os.path.join(CORPUS, "nest3.xml"), None, "quick"),
     # the repository's own test schemas (read from /repo, compiled with the explicit schema name the test build uses)
     ("big_endian_schema", os.path.join(REPO, "test", "schemas", "big_endian_schema.xml"), "big_endian_schema", "thorough"),
     ("test_schema2", os.path.join(REPO, "test", "schemas", "test_schema2.xml"), "test_schema2", "thorough"),
